@@ -210,7 +210,18 @@ func (g *cgen) listOp() (ContOp, bool) {
 	case 13:
 		return st("list.sort.reverse", x+".sort(reverse=True)")
 	case 14:
-		return st("list.sort.key", x+".sort(key=lambda v: -v)")
+		switch r.Intn(4) {
+		case 0:
+			return st("list.sort.key", x+".sort(key=lambda v: -v)")
+		case 1:
+			// equal keys: stability is visible
+			return st("list.sort.key-stable", x+".sort(key=lambda v: v % 3)")
+		case 2:
+			return st("list.sort.key-stable-reverse", x+".sort(key=lambda v: v % 3, reverse=True)")
+		default:
+			g.typ[z] = "list"
+			return st("list.sorted.key-stable", fmt.Sprintf("%s = sorted(%s, key=lambda v: v %% 2, reverse=%s)", a(z), x, []string{"True", "False"}[r.Intn(2)]))
+		}
 	case 15:
 		switch r.Intn(3) {
 		case 0:
